@@ -416,6 +416,37 @@ func checkC03(w *Worker) {
 		}
 		return idxs
 	}, 3))
+	// sets of at most four names over segments {a, empty} up to depth 4 (29 names)
+	var uniE4 []string
+	for n := 1; n <= 4; n++ {
+		for m := 0; m < 1<<uint(n); m++ {
+			segs := make([]string, n)
+			for k := range segs {
+				if m&(1<<uint(k)) != 0 {
+					segs[k] = "a"
+				}
+			}
+			if p := strings.Join(segs, "/"); p != "" {
+				uniE4 = append(uniE4, p)
+			}
+		}
+	}
+	w.Explore("sets-le4-empty-segments-depth4", ExploreOpts{ShardDepth: 5}, body(uniE4, func(x *Exec) []int {
+		var idxs []int
+		n := x.Choose(5, "input:size")
+		lo := 0
+		for k := 0; k < n; k++ {
+			remaining := n - k - 1
+			hi := len(uniE4) - remaining
+			if hi <= lo {
+				break
+			}
+			pick := lo + x.Choose(hi-lo, "input:member")
+			idxs = append(idxs, pick)
+			lo = pick + 1
+		}
+		return idxs
+	}, 3))
 	uni3 := pathUniverse([]string{"a", "b", "c"}, 3) // 39 paths
 	w.Explore("sets-le4-abc-depth3", ExploreOpts{ShardDepth: 5}, body(uni3, func(x *Exec) []int {
 		var idxs []int
